@@ -94,7 +94,10 @@ let rec model_of p = match p with
   | "C11" -> c11_model
   | "C08" -> c08_model
   | "C04" | "C05" | "C12" | "C09" | "C10" -> Rp.model
-  | "C01" | "C06" | "C13" -> Rt.model p
+  | "C13" -> (fun c -> match c with
+      | L (A "rp" :: _) -> (match Rp.model c with L [A "regpanic"] -> L [A "reg"; A "panic"] | _ -> L [A "reg"; A "ok"])
+      | _ -> Rt.model "C13" c)
+  | "C01" | "C06" -> Rt.model p
   | "C02" | "C07" -> (fun _ -> L [A "judge-only"])
   | p -> failwith ("no model for " ^ p)
 let judge_of = function
@@ -110,7 +113,9 @@ let judge_of = function
   | "C02" -> Rt.c02_judge
   | "C07" -> Rt.c07_judge
   | "C06" -> Rt.c06_judge
-  | "C13" -> Rt.c13_judge
+  | "C13" -> (fun c o -> match c with
+      | L (A "rp" :: _) -> Rp.c13_limit_judge c o
+      | _ -> Rt.c13_judge c o)
   | p -> failwith ("no judge for " ^ p)
 
 let read_lines ic = let rec go acc = match input_line ic with l -> go (l :: acc) | exception End_of_file -> List.rev acc in go []
